@@ -5,6 +5,8 @@ import (
 	"fmt"
 	"time"
 
+	"github.com/acquirecloud/golibs/container/lru"
+	"github.com/acquirecloud/golibs/zverif/vsched"
 	"verifh/internal/bfs"
 	"verifh/internal/ev"
 	"verifh/internal/lruh"
@@ -101,10 +103,89 @@ func main() {
 			samples.Add(fmt.Sprintf("lru %s capacity=%d: states=%d depth=%d fixpoint=%v %s", kind, capa, st.States, st.Depth, st.Fixpoint, st.Capped))
 		}
 	}
+	// part 3: the capacity bound under overlapping creations (controlled scheduler, every schedule within P<=2):
+	// "an LRU cache holds at most its capacity" must not depend on creations being serialised
+	cs, ct, cfound := concurrentBursts()
+	states += cs
+	trans += ct
+	for _, f := range cfound {
+		run.Violation(f[0], f[1], map[string]any{"scenario": f[2]})
+	}
+	samples.Add(fmt.Sprintf("concurrent bursts: 2-3 threads creating distinct keys with overlapping create callbacks, capacities 1-2, P<=2: %d schedule-tree nodes", cs))
 	run.Assume = []string{"nodes parked in sync.Pool are not counted: the property speaks of what is reachable from the list head"}
 	run.Finish(ev.Coverage{
 		"states": states, "transitions": trans, "traces_validated_against_impl": trans, "samples": samples.List,
 		"exhaustive": fix, "fixpoint": fix, "searches": per,
-		"rule": "same state graphs as C10 (ordered map) and C08 (LRU front-ends), explored to a fixpoint of the canonical state, which contains the node list reachable from the list head: a leak makes the state grow and the search cannot close. Oracle: in every map state with no open iterator, and after every LRU operation, nodes reachable from head == live entries + 1, no removed-but-linked node, every refCnt 0, First() visits one node",
+		"rule": "same state graphs as C10 (ordered map) and C08 (LRU front-ends), explored to a fixpoint of the canonical state, which contains the node list reachable from the list head: a leak makes the state grow and the search cannot close. Part 3: 2-3 threads with overlapping creations under the controlled scheduler (P<=2): the capacity bound holds after the burst. Oracle: in every map state with no open iterator, and after every LRU operation, nodes reachable from head == live entries + 1, no removed-but-linked node, every refCnt 0, First() visits one node",
 	})
+}
+
+func concurrentBursts() (int, int64, [][3]string) {
+	fine := vsched.Mask(vsched.KLock, vsched.KChan, vsched.KEnv)
+	var found [][3]string
+	nodes, steps := 0, int64(0)
+	for _, capa := range []int{1, 2} {
+		for threads := 2; threads <= 3; threads++ {
+			for _, rounds := range []int{1, 2} {
+				if threads == 3 && rounds == 2 {
+					continue
+				}
+				capa, threads, rounds := capa, threads, rounds
+				name := fmt.Sprintf("capacity=%d threads=%d creations-per-thread=%d", capa, threads, rounds)
+				var problem string
+				scenario := func() {
+					problem = ""
+					c, err := lru.NewCache[int, int](capa, func(k int) (int, error) {
+						vsched.Point(vsched.KEnv, "create", nil)
+						return k, nil
+					}, func(k, v int) {})
+					if err != nil {
+						panic(err)
+					}
+					done := make([]bool, threads)
+					for t := 0; t < threads; t++ {
+						t := t
+						vsched.GoNamed(fmt.Sprintf("t%d", t), func() {
+							for r := 0; r < rounds; r++ {
+								c.GetOrCreate(t*10 + r)
+							}
+							done[t] = true
+						})
+					}
+					vsched.WaitFor("all", func() bool {
+						for _, d := range done {
+							if !d {
+								return false
+							}
+						}
+						return true
+					})
+					nodes, _, _, length, _, dump, _ := lru.VerifItems(c.ECache)
+					if length > capa || nodes > capa+1 {
+						problem = fmt.Sprintf("%s: after the burst the cache holds %d entries (%d list nodes: %s) for capacity %d", name, length, nodes, dump, capa)
+					}
+				}
+				e := &vsched.Explorer{Cfg: vsched.Config{P: 2, Preempt: fine, MaxSteps: 5000}, Scenario: scenario, StopAtFirst: true,
+					Check: func(x *vsched.Exec) (string, *vsched.Violation) {
+						if len(x.Panics) > 0 {
+							return "panic", &vsched.Violation{Sig: "lru concurrent panic", Detail: x.Panics[0]}
+						}
+						if problem != "" {
+							return "v", &vsched.Violation{Sig: "lru capacity exceeded after overlapping creations", Detail: problem}
+						}
+						return "ok", nil
+					}}
+				e.Run()
+				if e.InfraErr != "" {
+					ev.Infra("%s", e.InfraErr)
+				}
+				nodes += int(e.Stats.TreeNodes)
+				steps += e.Stats.Steps
+				if e.Found != nil {
+					found = append(found, [3]string{e.Found.Sig, e.Found.Detail, name})
+				}
+			}
+		}
+	}
+	return nodes, steps, found
 }
